@@ -218,3 +218,21 @@ def _et_replay(fn):
 for _fn in _ET_CASES:
     REPLAYS[(_fn, "post.")] = _et_replay(_fn)
     REPLAYS[(_fn, "noraise.")] = _et_replay(_fn)
+
+
+# ---- engine cross-check (DESIGN 3.8): pyvc must predict CPython's outcome on concrete inputs -------------------------
+from pyvc.registry import scan as _scan  # noqa: E402
+
+
+@_scan("C16")
+def engine_agrees_with_cpython_on_concrete_inputs():
+    import os
+    import subprocess
+    import sys
+
+    here = os.path.dirname(os.path.dirname(os.path.abspath(__file__)))
+    p = subprocess.run([sys.executable, os.path.join(here, "vlib", "difftest.py"), "150"], capture_output=True, text=True, timeout=600)
+    last = (p.stdout.strip().splitlines() or ["no output"])[-1]
+    if p.returncode == 2:
+        raise RuntimeError("difftest could not run: " + (p.stdout + p.stderr)[-300:])
+    return [("pyvc.difftest.EventTime", p.returncode == 0, last if p.returncode == 0 else (p.stdout[-1500:]))]
